@@ -167,6 +167,31 @@ static ans_t exec_op(readers_t *r, const op_t *op)
 			}
 			sqfs_drop(s);
 		}
+	} else if (!strcmp(op->kind, "streami")) {
+		/* stream of file op->a consumed in pieces of 1000 bytes; between two pieces 10 bytes at offset op->c of file op->b are read through
+		 * the positional API of the same data reader (another fragment / data block enters the reader's caches). The hash covers only the
+		 * bytes of file op->a, in the same way as the "stream" operation, so both answers are comparable. */
+		sqfs_inode_generic_t *other = NULL;
+		a.status = sqfs_dir_reader_get_inode(r->dr, op->a, &ino);
+		if (a.status == 0 && sqfs_dir_reader_get_inode(r->dr, op->b, &other) != 0) other = NULL;
+		if (a.status == 0) {
+			sqfs_istream_t *s = NULL;
+			a.status = sqfs_data_reader_create_stream(r->data, ino, "f", &s);
+			while (a.status == 0) {
+				const sqfs_u8 *p; size_t n;
+				int ret = s->get_buffered_data(s, &p, &n, 1);
+				if (ret != 0) { if (ret < 0) a.status = ret; break; }
+				if (n > 1000) n = 1000;
+				if (other != NULL) {
+					sqfs_u8 tmp[16];
+					(void)sqfs_data_reader_read(r->data, other, op->c, tmp, 10);
+				}
+				a.hash = fnv(a.hash, p, n);       /* p was handed out before the interleaved read and is still the caller's to use */
+				s->advance_buffer(s, n);
+			}
+			sqfs_drop(s);
+		}
+		sqfs_free(other);
 	} else if (!strcmp(op->kind, "xattr")) {
 		/* pairs are combined order-insensitively so that this answer is comparable with the low-level walk below */
 		sqfs_xattr_t *l = NULL;
@@ -404,6 +429,22 @@ int main(int argc, char **argv)
 					if (mismatches++ == 0) { first_bad[0] = i; first_len = 1; bad_exp = want; bad_got = g; }
 					break;
 				}
+			}
+		}
+		/* a stream interleaved with positional reads of another file must give what the undisturbed stream gives */
+		for (int i = 0; i < nops; ++i) {
+			if (strcmp(ops[i].kind, "streami")) continue;
+			op_t plain = ops[i];
+			strcpy(plain.kind, "stream");
+			if (make_readers(&r)) return 2;
+			ans_t want = exec_op(&r, &plain);
+			drop_readers(&r);
+			if (make_readers(&r)) return 2;
+			ans_t got = exec_op(&r, &ops[i]);
+			drop_readers(&r);
+			executed += 2; histories++;
+			if (got.status != want.status || (got.status == 0 && got.hash != want.hash)) {
+				if (mismatches++ == 0) { first_bad[0] = i; first_len = 1; bad_exp = want; bad_got = got; }
 			}
 		}
 		for (int i = 0; i < nops; ++i) {
